@@ -155,7 +155,14 @@ def check(eng, res):
     res.ob("R-COMPAT-READSET", fi, "read-set", "reads ⊆ {descriptor, descriptor_id, bond_type} of self/other; no call, no global",
            fi.node, not bad, "; ".join(bad))
     # ---- table
-    table, canon, f = decide_table(eng, fi)
+    try:
+        table, canon, f = decide_table(eng, fi)
+    except AnalysisError as exc:
+        if not bad:
+            raise
+        res.ob("R-COMPAT-TABLE", fi, "evaluable", "is_compatible is a function of symbol / id / order only", fi.node, False,
+               f"cannot be evaluated on the abstract domain because it reads more: {exc}")
+        table = []
     wrong = [(c, r) for c, r in table if r != expected(c)]
     for c, r in table:
         sd, od, ie, oe = c
@@ -272,7 +279,8 @@ def check(eng, res):
             t = src(gflow.expand(n.value, gflow.cfg.node_of(n)))
             ret_ok = "asarray" in t or t.startswith("[")
     res.ob("R-COMPAT-UNIQUE", g, "filter-return", "the collected index list is what is returned", g.node, ret_ok)
-    res.floor("R-COMPAT-TABLE", sum(1 for o in res.obligations if o.rule == "R-COMPAT-TABLE"), 66)
+    if table:
+        res.floor("R-COMPAT-TABLE", sum(1 for o in res.obligations if o.rule == "R-COMPAT-TABLE"), 66)
     res.assumptions += [
         "Python == on str / int / RDKit BondType enum values is an equivalence relation",
         "A-FINITE evaluator (sa/formula.py, sa/guards.py) is correct (self-tested on equivalent and non-equivalent variants)",
